@@ -499,15 +499,15 @@ package storage
 
 //@ func dbFilePath(db string) (string, bool, error)
 //@   props C17
-//@   trusted
 //@   pure
-//@   ensures db == "" ==> err == ErrDBNotSelected
+//@   ensures[nodb] db == "" ==> err == ErrDBNotSelected
+//@   ensures[path; C17] db != "" ==> result0 == pathJoin3("data", strLower(db), "tbl")
 
 //@ func walFilePath(db string) (string, bool, error)
 //@   props C17
-//@   trusted
 //@   pure
-//@   ensures db == "" ==> err == ErrDBNotSelected
+//@   ensures[nodb] db == "" ==> err == ErrDBNotSelected
+//@   ensures[path; C17] db != "" ==> result0 == pathJoin3("data", strLower(db), "wal")
 
 //@ func newWal(db string, forceSync bool) (*wal, error)
 //@   props C17
